@@ -21,6 +21,9 @@ PROPERTY = {
         }),
     ],
     "timeout": 900,
+    # CBMC treats arrays above 64 elements with the array theory unless told otherwise; the 512-word bitmap
+    # is then intractable (measured: > 10 min per case). Field-sensitive arrays make every case a small query.
+    "kani_args": ["--cbmc-args", "--max-field-sensitivity-array-size", "1024"],
     "kani": [Harness(f"c02_allocate_b{b:02d}", f"C02.stream_id_set.allocate.k{32*b}_{32*b+31}", "PROVED-C",
                      f"real StreamIdSet::allocate, first non-full word k in {32*b}..={32*b+31} (concrete), word k and all later words symbolic: returns the lowest free id, sets exactly that bit, no i16 overflow",
                      functions=[F + "StreamIdSet::allocate"]) for b in range(16)] + [
